@@ -560,11 +560,22 @@ def hostGetattr (d : HostDesc) (o : CV) (name : String) (st : CState) : Except E
   -- host; the harness does not ship such cases, every other name is an AttributeError
   | _ => (.error "AttributeError", st)
 
-def walkPath (d : HostDesc) : List FStep → CV → CState → Except Exc CV × CState
+/-- objects of `_REFLECTIVE_TYPES` (generator, frame, code; modules are undescribed here) -/
+def cvReflective : CV → Bool
+  | .gen => true
+  | .refl .frame => true
+  | .refl .code => true
+  | _ => false
+
+/-- the traversal of `_SafeFormatter.get_field` (`safe`: an attribute step on a generator / frame / code object is
+    refused, exactly as `get_member` refuses it; since /repo dfac3bc) resp. of `string.Formatter.get_field` -/
+def walkPath (safe : Bool) (d : HostDesc) : List FStep → CV → CState → Except Exc CV × CState
   | [], o, st => (.ok o, st)
   | .attr n :: rest, o, st =>
+    if safe && cvReflective o then (.error "ParseError", st)
+    else
     match hostGetattr d o n st with
-    | (.ok v, st') => walkPath d rest v st'
+    | (.ok v, st') => walkPath safe d rest v st'
     | (.error e, st') => (.error e, st')
   | .idx k :: rest, o, st =>
     let key : CV := if allDigits k then .int (digitsToNat k) else .str k
@@ -574,7 +585,7 @@ def walkPath (d : HostDesc) : List FStep → CV → CState → Except Exc CV × 
       | .opq => .error (scope "index of an undescribed object")
       | _ => cvGetitem o key
     match r with
-    | .ok v => walkPath d rest v st
+    | .ok v => walkPath safe d rest v st
     | .error e => (.error e, st)
 
 def stepIsPrivate : FStep → Bool
@@ -619,7 +630,7 @@ def resolveRef (safe : Bool) (d : HostDesc) (args : List CV) (mapping : Option C
       match first with
       | .error e => (.error e, st)
       | .ok v =>
-        match walkPath d r.path v st with
+        match walkPath safe d r.path v st with
         | (.error e, st') => (.error e, st')
         | (.ok o, st') =>
           -- convert_field
